@@ -30,6 +30,9 @@ pub enum Edit {
     CrlfFlipLine { line: usize },
     /// every line ending of the file toggles
     CrlfFlipFile,
+    /// synthetic project: one option value replaced by another value the parser knows
+    /// (`flags_on`: every XML `NO` leaf is switched to `SI` as well)
+    ValueSwap { line: usize, start: usize, end: usize, text: String, flags_on: bool },
     /// C02: definition header renamed (references untouched)
     DefRenamed { line: usize },
     /// C02: definition block removed
@@ -52,6 +55,7 @@ impl Edit {
             Edit::NumOor { .. } => "disk.number_out_of_range",
             Edit::ByteFlip { .. } => "disk.byte_flip",
             Edit::CrlfFlipLine { .. } | Edit::CrlfFlipFile => "disk.crlf_flip",
+            Edit::ValueSwap { .. } => "proj.option_value",
             Edit::DefRenamed { .. } => "disk.def_renamed",
             Edit::DefRemoved { .. } => "disk.def_removed",
             Edit::RefRenamed { .. } => "disk.ref_renamed",
@@ -70,6 +74,7 @@ impl Edit {
             | Edit::NumOor { line, .. }
             | Edit::ByteFlip { line, .. }
             | Edit::CrlfFlipLine { line }
+            | Edit::ValueSwap { line, .. }
             | Edit::DefRenamed { line }
             | Edit::DefRemoved { line }
             | Edit::RefRenamed { line, .. } => Some(*line),
@@ -538,6 +543,17 @@ pub fn apply(text: &str, e: &Edit) -> Option<String> {
             let mut v = lines.clone();
             v[*line] = &newl;
             Some(join(&v))
+        }
+        Edit::ValueSwap { line, start, end, text: new, flags_on } => {
+            let l = get(*line)?;
+            if *end > l.len() || *start > *end || !l.is_char_boundary(*start) || !l.is_char_boundary(*end) {
+                return None;
+            }
+            let newl = format!("{}{}{}", &l[..*start], new, &l[*end..]);
+            let mut v = lines.clone();
+            v[*line] = &newl;
+            let t = join(&v);
+            Some(if *flags_on { crate::optvar::flags_on(&t) } else { t })
         }
         Edit::CrlfFlipFile => {
             if text.contains("\r\n") {
